@@ -407,6 +407,21 @@ def run_plan(pid, tier, seed, extra_cov=None, t0=None):
                 classes[run] = "ml2_rb1"
                 script_by_run[run] = sc
                 distinct.add(C.sha([beh, store, conc]))
+    if pid == "C16":
+        # the history on which the recorded finding F24 is reproduced (so that every run of this check shows it:
+        # KNOWN-FINDING while it is there, nothing once it is repaired)
+        kp = os.path.join(C.VERIF, "known", "F24-script.json")
+        if os.path.exists(kp):
+            kf = json.load(open(kp))
+            consts = consts_by_class.get("ml2_rb1") or api.gen_constants(maxlog=2)
+            consts_by_class.setdefault("ml2_rb1", consts)
+            run += 1
+            sc = api.make_script(run, kf["steps"], kf["cfg"], kf["conc"])
+            sc["decode"] = True
+            scripts[run] = sc
+            classes[run] = "ml2_rb1"
+            script_by_run[run] = sc
+            distinct.add(C.sha([kf["steps"], kf["cfg"], kf["conc"]]))
     if os.environ.get("VERIF_DEBUG_ONLY_RUNS"):
         # debugging aid: regenerate the plan deterministically, keep only the named runs (and their twins)
         only = {int(x) for x in os.environ["VERIF_DEBUG_ONLY_RUNS"].split(",")}
